@@ -48,6 +48,7 @@ pub fn run(cfg: &Cfg) -> Outcome {
             opts.explicit_marks = true;
             opts.typed = false; // canonical streams carry text for DA/TM/DT/IS/DS
             opts.zero_frags = rng.chance(1, 4);
+            opts.nested_pixel = idx % 2 == 1;
             let ds = gen_dataset(rng, &opts);
             for (ti, ts) in Ts::ALL.iter().enumerate() {
                 let tc = &tss[ti];
